@@ -12,8 +12,8 @@ use heapless::Vec;
 use crate::{
     debug, fat,
     filesystem::{
-        Attributes, ClusterId, DirEntry, DirectoryInfo, FileInfo, HandleGenerator, LfnBuffer, Mode,
-        RawDirectory, RawFile, TimeSource, ToShortFileName, MAX_FILE_SIZE,
+        Attributes, ClusterId, DirEntry, DirectoryInfo, FileInfo, Handle, HandleGenerator,
+        LfnBuffer, Mode, RawDirectory, RawFile, TimeSource, ToShortFileName, MAX_FILE_SIZE,
     },
     trace, Block, BlockCache, BlockCount, BlockDevice, BlockIdx, Error, RawVolume, ShortFileName,
     Volume, VolumeIdx, VolumeInfo, VolumeType, PARTITION_ID_FAT16, PARTITION_ID_FAT16_LBA,
@@ -198,7 +198,7 @@ where
             | PARTITION_ID_FAT16
             | PARTITION_ID_FAT16_SMALL => {
                 let volume = fat::parse_volume(&mut data.block_cache, lba_start, num_blocks)?;
-                let id = RawVolume(data.id_generator.generate());
+                let id = RawVolume(data.new_handle());
                 let info = VolumeInfo {
                     raw_volume: id,
                     idx: volume_idx,
@@ -222,7 +222,7 @@ where
         // Opening a root directory twice is OK
         let mut data = self.data.try_borrow_mut().map_err(|_| Error::LockError)?;
 
-        let directory_id = RawDirectory(data.id_generator.generate());
+        let directory_id = RawDirectory(data.new_handle());
         let dir_info = DirectoryInfo {
             raw_volume: volume,
             cluster: ClusterId::ROOT_DIR,
@@ -269,7 +269,7 @@ where
 
         // Should we short-cut? (root dir doesn't have ".")
         if short_file_name == ShortFileName::this_dir() {
-            let directory_id = RawDirectory(data.id_generator.generate());
+            let directory_id = RawDirectory(data.new_handle());
             let dir_info = DirectoryInfo {
                 raw_directory: directory_id,
                 raw_volume: data.open_volumes[volume_idx].raw_volume,
@@ -314,7 +314,7 @@ where
         // no cached state and so opening a directory twice is allowable.
 
         // Remember this open directory.
-        let directory_id = RawDirectory(data.id_generator.generate());
+        let directory_id = RawDirectory(data.new_handle());
         let dir_info = DirectoryInfo {
             raw_directory: directory_id,
             raw_volume: data.open_volumes[volume_idx].raw_volume,
@@ -574,7 +574,7 @@ where
                     )?,
                 };
 
-                let file_id = RawFile(data.id_generator.generate());
+                let file_id = RawFile(data.new_handle());
 
                 let file = FileInfo {
                     raw_file: file_id,
@@ -611,7 +611,7 @@ where
                 }
 
                 let mode = solve_mode_variant(mode, true);
-                let raw_file = RawFile(data.id_generator.generate());
+                let raw_file = RawFile(data.new_handle());
 
                 let file = match mode {
                     Mode::ReadOnly => FileInfo {
@@ -1149,6 +1149,31 @@ impl<D, const MAX_DIRS: usize, const MAX_FILES: usize, const MAX_VOLUMES: usize>
 where
     D: BlockDevice,
 {
+    /// Draw a handle that no open volume, directory or file is using.
+    ///
+    /// The counter wraps after `2**32` handles, and whatever was opened
+    /// before that may still be open.
+    fn new_handle(&mut self) -> Handle {
+        loop {
+            let handle = self.id_generator.generate();
+            let in_use = self
+                .open_volumes
+                .iter()
+                .any(|v| v.raw_volume == RawVolume(handle))
+                || self
+                    .open_dirs
+                    .iter()
+                    .any(|d| d.raw_directory == RawDirectory(handle))
+                || self
+                    .open_files
+                    .iter()
+                    .any(|f| f.raw_file == RawFile(handle));
+            if !in_use {
+                return handle;
+            }
+        }
+    }
+
     /// Check if a file is open
     ///
     /// Returns `true` if it's open, `false`, otherwise.
